@@ -183,6 +183,38 @@ def _l5_two_reads(bi: int, k: int, p1: int, p2: int, same_cell: bool) -> bool:
     return total == exp
 
 
+def _l6_two_reads_site_order(L: int, b: int, k: int, sa: int, da: int, sb: int, db: int, F: int) -> bool:
+    """
+    pre: 2 <= L <= 8
+    pre: 1 <= b <= 3
+    pre: 1 <= k <= 2
+    pre: 0 <= sa <= sb < L
+    pre: 0 <= da < L and 0 <= db < L
+    pre: 0 <= F <= 3
+    pre: da - sa <= F and sa - da <= F and db - sb <= F and sb - db <= F
+    post: _
+    """
+    # two one-base reads of one cell, coordinate sorted by their START (sa <= sb) as a BAM is, with explicit sites (DS) that may be
+    # ordered the other way round (a reverse read has its site at its far end): the file is sorted by read start, NOT by site, so
+    # the first read may belong to a later job while the second one is still owned by the current job
+    ra = LRead(reference_name='chr1', reference_start=sa, cigartuples=[(0, 1)], seq='A', qual='I', is_read1=True, is_read2=False, mapping_quality=60)
+    rb = LRead(reference_name='chr1', reference_start=sb, cigartuples=[(0, 1)], seq='A', qual='I', is_read1=True, is_read2=False, mapping_quality=60)
+    ra.mi, ra.ds_present, ra.ds, ra.da_present = 0, True, da, False
+    rb.mi, rb.ds_present, rb.ds, rb.da_present = 0, True, db, False
+    PYS.files = {'x.bam': dict(references=['chr1'], lengths=[L], reads=[ra, rb])}
+    total = {}
+    for cmd in B.generate_commands('x.bam', bin_size=b, bins_per_job=k, max_fragment_size=F, min_mq=50, key_tags=None, dedup=True, kwargs={}):
+        total = _merge(total, B.count_fragments_binned(cmd))
+    exp = {}
+    for site in (da, db):
+        i = site // b
+        end = b * (i + 1)
+        key = ('chr1', b * i, end if end < L else L)
+        exp.setdefault(key, {})
+        exp[key]['cellA'] = exp[key].get('cellA', 0) + 1
+    return {k_: dict(v) for k_, v in total.items() if v} == exp
+
+
 def _l3_merge(n1: int, n2: int, a0: int, a1: int, b0: int, b1: int, c0: int, c1: int, order: bool) -> bool:
     """
     pre: 0 <= n1 <= 2 and 0 <= n2 <= 2
@@ -246,6 +278,8 @@ LEMMAS = [
     dict(name='L4_two_files_same_contig_name', fn='_l4_two_files', engine='E1', timeout=_T, replay='replay.C12:replay'),
     dict(name='L5_two_reads_megabase_scale', fn='_l5_two_reads', engine='E1', timeout=_T, replay='replay.C12:replay',
          cases={'quick': [dict(id='b%d' % i, pre=['bi == %d' % i]) for i in range(4)]}),
+    dict(name='L6_two_reads_start_vs_site_order', fn='_l6_two_reads_site_order', engine='E1', timeout=_T, replay='replay.C12:replay',
+         cases={'quick': [dict(id='b%d_k%d_L%d' % (b, k, L), pre=['b == %d' % b, 'k == %d' % k, 'L == %d' % L]) for b in (1, 2) for k in (1, 2) for L in (2, 3, 4, 5) if L >= b + 1]}),
     dict(name='L3b_merge_two_files_same_bins', fn='_l3b_merge_two_files', engine='E1', timeout=_T, replay='replay.C12:replay'),
     dict(name='L3_merge_order', fn='_l3_merge', engine='E1', timeout=_T, replay='replay.C12:replay'),
 ]
